@@ -5,7 +5,7 @@ CFG = {
     "run_modules": ["Verif.C10.Run"],
     "coq_dirs": ["C10"],
     "n": {"quick": 2000, "thorough": 150000},
-    "shard": 250,
+    "shard": 500,
     "max_report": 3,
     "level": "proof",
     "rule": ("promise-operation programs of <= 12 ops after 1..4 leading NewPromise, <= 10 named promises, 0..3 thenable objects "
@@ -20,7 +20,7 @@ CFG = {
              "(resolution with promise/thenable, handler returning promise/thenable, combinator, several runs, repeated resolver "
              "call, async function, finally); distinct = by hash of the case"),
     "theorem_names": ["promise_refines", "each_reaction_once", "queue_empty_on_return", "interrupt_discards",
-                      "settle_once", "latched_pair_is_noop", "tracker_language", "reaction_record_jobbed_once"],
+                      "settle_once", "latched_pair_is_noop", "tracker_language", "reaction_record_jobbed_once", "fuel_irrelevant"],
     "allowed_axioms": [],
     "trusted_base": [
         "Coq 8.16.1 kernel + vm_compute (no native_compute); theorems closed under the global context (no axioms)",
